@@ -103,7 +103,18 @@ def main():
                     want.add((d['file'], d['cls'], d['func'], d['desc']))
         cands = [c for c in cands if (c[0], c[1], c[2], c[4]) in want]
         mx = len(cands)
+    if '--kinds' in sys.argv:
+        kinds = set(sys.argv[sys.argv.index('--kinds') + 1].split(','))
+        cands = [c for c in cands if c[5] in kinds]
     done = set()
+    if '--skip-from' in sys.argv:
+        for f in sys.argv[sys.argv.index('--skip-from') + 1:]:
+            if f.startswith('--'):
+                break
+            for l in open(f):
+                d = json.loads(l)
+                if d['verdict'] == 'killed':
+                    done.add((d['file'], d['cls'], d['func'], d['desc']))
     if os.path.exists(out):
         for l in open(out):
             d = json.loads(l)
